@@ -23,20 +23,41 @@ Mc == MC[d].m
 
 Init == /\ d \in 1..Len(MC) /\ r = M!MInit(MC[d].m) /\ ph = 0 /\ CInit
 
-Step(iv) ==
-  LET e == M!MStep(Mc, r, iv) IN
-    /\ r' = e.r /\ d' = d
-    /\ CStep(C, iv, e.o)
-    /\ ph' = IF e.r = r /\ cvars' = cvars THEN 1 - ph ELSE 0
+Trans(iv, e) ==                      \* e = the model's step under the inputs iv
+  /\ r' = e.r /\ d' = d
+  /\ CStep(C, iv, e.o)
+  /\ ph' = IF e.r = r /\ cvars' = cvars THEN 1 - ph ELSE 0
+Step(iv) == Trans(iv, M!MStep(Mc, r, iv))
 
-Next == \E iv \in Inputs(C) : Step(iv)
-Spec == Init /\ [][Next]_vars /\ WF_vars(Next)
+(* The environment is Inputs(C) of the contract.  It is enumerated without the policy values of slaves that do   *)
+(* not see cyc & stb in this cycle: such a value changes neither the model's step (a test slave's policy is only  *)
+(* read when it is strobed) nor the monitor's (Pol is only read under ready(j)), so the reachable states and      *)
+(* transitions are exactly those of  \E iv \in Inputs(C) : Step(iv)  at a fraction of the evaluations.  Which     *)
+(* slaves are strobed does not depend on the policies (forward path); Step asserts it.                            *)
+ZeroPols == [j \in 1..C.m |-> 0]
+Strobed(o) == [j \in 1..C.m |-> SCyc(C, o, j) = 1 /\ SStb(C, o, j) = 1]
+RECURSIVE PolProd(_, _)
+PolProd(st, j) == IF j > C.m THEN { <<>> }
+                  ELSE { <<p>> \o rest : p \in (IF st[j] THEN SlaveMoves(C) ELSE {0}), rest \in PolProd(st, j + 1) }
+Next == \E mv \in MProd(C, 1) :
+          LET st == Strobed(M!MStep(Mc, r, mv \o ZeroPols).o) IN
+            \E pv \in PolProd(st, 1) :
+              LET e == M!MStep(Mc, r, mv \o pv) IN
+                /\ Trans(mv \o pv, e)
+                /\ Assert(Strobed(e.o) = st, "strobes depend on the slaves' policies")
+(* No fairness conjunct: WbIcGraph has WF_vars(Next) to exclude behaviours that end in stuttering, and TLC pays for *)
+(* it by searching, for every edge of the state graph, an input that produces it.  Here the liveness clauses carry  *)
+(* the premise Moves instead (an action check that costs nothing); Next is always enabled, so it says the same.     *)
+Spec == Init /\ [][Next]_vars
 Alias == [d |-> d, r |-> r, obs |-> obs, open |-> open, waitc |-> waitc, age |-> age,
           iv |-> CHOOSE iv \in Inputs(C) : Step(iv)]
 
-(* liveness, as in WbIcGraph *)
-Fair == /\ \A i \in 1..MAXN : []<>(obs.idle[i])
-        /\ \A j \in 1..MAXN : []<>(obs.slaveok[j])
-Served == Fair => \A i \in 1..MAXN : []<>(obs.notwaiting[i])
-Recovers == (\A i \in 1..MAXN : []<>(obs.idle[i])) => \A i \in 1..MAXN : []<>(obs.notwaiting[i])
+(* liveness, as in WbIcGraph, with the premise Moves = "the behaviour does not end in stuttering" in the place of   *)
+(* WbIcGraph's WF_vars(Next)                                                                                        *)
+Obliged(k) == open[k] # <<>> /\ (open[k][1] <= C.m \/ C.timeout > 0)
+NoHog == \A k \in 1..MAXN : []<>(incyc[k] = 0 \/ (served[k] = 0 /\ Obliged(k)))
+FairSlaves == \A j \in 1..MAXN : []<>(obs.slaveok[j])
+Moves == []<><<TRUE>>_vars
+Served == (Moves /\ NoHog /\ FairSlaves) => \A i \in 1..MAXN : []<>(obs.notwaiting[i])
+Recovers == (Moves /\ NoHog) => \A i \in 1..MAXN : []<>(obs.notwaiting[i])
 =============================================================================
